@@ -41,6 +41,9 @@ EXPLANATION += ' Added: (R8, R9) the evaluated clauses C01-R4 / C01-R9 (written 
 # --- metadata added for batch 8
 EXPLANATION += ' R3 evaluates the shell conversion with every true / false flag value (`np.True_`, `np.False_`, 1, 0), not only the two singletons.'
 # --- end metadata batch 8
+# --- metadata added for batch 9
+EXPLANATION += " R2 / R4 rows added: single-label shells are compared like any other; a shell type missing from the basis's own conventions raises instead of falling back to another table."
+# --- end metadata batch 9
 
 
 def run(ctx):
